@@ -64,6 +64,14 @@ Definition tied (fid : N) (s : string) : string :=
   | 18 => ser_list (opt_tokens s)
   | 19 => lower s
   | 20 => ser_res ser_front (front s)
+  | 21 => (* everything the front end computes on one text: the card contents
+             of the three blocks, the blocks, the raw cards of each block *)
+      ser_res ser_front (front s) ++ sep2 ++ ser_res ser_blocks (blocks s) ++ sep2 ++
+      match blocks s with
+      | Ok l => concat "" (map (fun p => ser_list2 (get_cards (snd p)) ++ sep4)
+                               (filter (fun p => ceq (fst p) "c" || ceq (fst p) "s" || ceq (fst p) "d") l))
+      | Err _ => ""
+      end
   | _ => "?"
   end%N.
 
@@ -98,9 +106,29 @@ Definition fingerprint (fid : N) (inputs : list string) : int :=
   fold_left (fun acc s => ((acc * 1000003 + hstr (tied fid s) (hstr s 7)) mod MODULUS)%uint63)
             inputs 0%uint63.
 
+(* explicit case with a long output: (function, input, hash of the serialised
+   output of the implementation) *)
+Definition check_hash (c : N * string * int) : bool :=
+  let '(fid, inp, h) := c in Uint63.eqb (hstr (tied fid inp) 7%uint63) h.
+
 (* case: (function, alphabet, length of the enumerated part, prefix, suffix, fingerprint
    computed from the implementation) *)
 Definition check_fp (c : N * string * N * string * string * int) : bool :=
   let '(fid, alpha, n, pre, suf, fp) := c in
   Uint63.eqb (fingerprint fid (map (fun s => pre ++ s ++ suf)
                                    (all_strings (list_ascii_of_string alpha) (N.to_nat n)))) fp.
+
+(* all sequences of [n] lines from a line alphabet, each line ended by \n,
+   behind a prefix *)
+Fixpoint all_seqs {A} (alpha : list A) (n : nat) : list (list A) :=
+  match n with
+  | O => [[]]
+  | S k => flat_map (fun c => map (cons c) (all_seqs alpha k)) alpha
+  end.
+
+Definition nlstr : string := String nl "".
+
+Definition check_fp_lines (c : N * list string * N * string * int) : bool :=
+  let '(fid, alpha, n, pre, fp) := c in
+  Uint63.eqb (fingerprint fid (map (fun seq => pre ++ concat "" (map (fun l => l ++ nlstr) seq))
+                                   (all_seqs alpha (N.to_nat n)))) fp.
